@@ -1,4 +1,5 @@
 """Runner for in-process harnesses built on engine/cxx/verif_pbt.h (rapidcheck + libFuzzer)."""
+from vlib.common import tier_params as common_tier_params
 import glob
 
 import numpy as np
@@ -143,7 +144,7 @@ def run_unit(pid, meta, tier, seed, replay=None, finish=True):
     out.extra["replays_run"] = replayed
 
     # 2. generated search
-    tp = meta["tiers"][tier]
+    tp = common_tier_params(meta, tier)
     props = [p for p in _list_props(exe) if p not in tp.get("skip_props", [])]
     shares = meta.get("shares", {})
     total_share = sum(shares.get(p, 1.0) for p in props)
